@@ -3,7 +3,7 @@
 pub enum Role { LOCKFILE, STAGING_DIR, CAS_DIR, DB_DIR, QUARANTINE_DIR, CAS_SUBDIR, DIR_OF_BLOB,
     STAGING, BLOB, QUARANTINE, WALSEG, OLDSEG, SNAP_TMP, SNAP, TMP, TMP_FILE, TARGET, SETTINGS, INVALID_OR_STAGING_LEFTOVER, UNKNOWN }
 
-pub enum F { Intents, StateW, StateR, Wal, CsApplied, CsFiltered, CsOrphanOk, SyncMode, StagingFlushed, StagingSynced, BlobAtFinal, IntentRegistered, GuardAlive, WalWritten, WalFlushed, WalDurable, Applied, TmpWritten, TmpSynced, TargetRenamed, SnapSaved, NewsegCreated, NewsegSynced, Deleted, ToDeleteNonempty, OwnsDirlock, StoredExists, SettingsMatch, WantPrecreate, DirsPrecreated, Looked, RenameTried }
+pub enum F { Intents, StateW, StateR, Wal, CsApplied, CsFiltered, CsOrphanOk, SyncMode, StagingFlushed, StagingSynced, BlobAtFinal, IntentRegistered, GuardAlive, WalWritten, WalFlushed, WalDurable, Applied, TmpWritten, TmpSynced, TargetRenamed, SnapSaved, NewsegCreated, NewsegSynced, Deleted, ToDeleteNonempty, OwnsDirlock, StoredExists, SettingsMatch, WantPrecreate, DirsPrecreated, Looked, RenameTried, SegExists, MustRollover }
 /// the World is the set of flags that are currently true (see DESIGN.md Appendix A for their meaning)
 pub struct World { pub s: Set<F> }
 impl World {
@@ -89,7 +89,9 @@ pub open spec fn is_dir_role(r: Role) -> bool { r == Role::STAGING_DIR || r == R
     requires /*unexplained_open_mode*/ false,
     ensures *final(w) == *old(w) { unimplemented!() }
 #[verifier::external_body] pub fn ev_file_create(w: &mut World, r: Role) -> (ok: bool)
-    requires /*file_create_only_new_segment*/ r == Role::WALSEG && old(w).has(F::OwnsDirlock),
+    requires
+        /*file_create_only_new_segment*/ r == Role::WALSEG && old(w).has(F::OwnsDirlock),
+        /*never_truncate_existing_segment*/ !old(w).has(F::SegExists),
     ensures *final(w) == (old(w).set(F::NewsegCreated, true).set(F::NewsegSynced, false)) { unimplemented!() }
 #[verifier::external_body] pub fn ev_file_open(w: &mut World, r: Role) -> (ok: bool)
     ensures *final(w) == *old(w) { unimplemented!() }
